@@ -15,7 +15,7 @@ from vlib.core import Harness, E2Spec, SPEC_SRC
 
 # per-validator bounds where the default bound does not finish under the per-harness cap (measured on this machine)
 # validators that allocate (Vec) are decided by engine E2 on their MIR instead of CBMC (which runs out of memory at 3 bytes, measured)
-E2_VALIDATORS = {'validate_regex_15': dict(quick=15, thorough=18)}
+E2_VALIDATORS = {'validate_regex_15': dict(quick=15, thorough=18), 'validate_regex_17': dict(quick=18, thorough=20)}
 BOUNDS = {
     # validate_regex_15 collects into a Vec (heap): CBMC runs out of memory at 4 symbolic bytes (measured) -> 3 bytes, long strings not covered
     ('quick', 'validate_regex_15'): dict(full=3, alpha=0),
@@ -109,6 +109,15 @@ def build(tier, known):
         gen.append(R.emit_rust(refname, d))
         minacc, depth = dfa_depth(d)
         lookup.append((idx, fn, refname))
+        if fn == 'validate_regex_24':
+            # the {0,127} counters need segments of 128/129 characters: long inputs with a constant prefix and a symbolic tail
+            for n in (127, 128, 129, 130):
+                hs.append(E2Spec(f'e2_c19_e{idx}_re{k}_long_n{n}', 'C19Validator',
+                                 dict(fn='regex::' + fn, n=n, entry=idx, fixed_prefix=[0x61, 124], dfa=dict(cls=d['cls'], trans=d['trans'], accept=d['accept'], dead=d['dead']), _crates=['spec']),
+                                 functions=[f'regex::{fn}', 'regex::validate_regex_8 (called per path segment)'],
+                                 bound=f'all byte strings of length exactly {n} whose first 124 bytes are the letter `a` and whose remaining {n - 124} bytes are arbitrary (all 256 values)',
+                                 claim=f'check_fn(s) == fullmatch(r"{rx}", s) around the 128-character segment limit',
+                                 native=('spec', 'n_c19_validator'), parts=1, timeout=900 if tier == 'quick' else 3600))
         if fn in E2_VALIDATORS:
             nmax = E2_VALIDATORS[fn][tier]
             pairs.append((idx, fn, 'r#"' + rx + '"#', m.group(4)))
@@ -186,5 +195,5 @@ pub fn h_c19_table_pairs() {{
                       bound=f'concrete: {len(pairs)} Pattern entries, {ntab} table rows',
                       claim='each Pattern entry pairs the validator function with the regex text its reference DFA was generated from; no further Pattern entries exist',
                       timeout=600, expect_cover=False))
-    info['e2_spec_entries'] = [[idx, fn] for idx, fn, _ in lookup if fn in E2_VALIDATORS]
+    info['e2_spec_entries'] = [[idx, fn] for idx, fn, _ in lookup if fn in E2_VALIDATORS or fn == 'validate_regex_24']
     return hs, {'spec_lib.rs': '\n'.join(gen)}, info
